@@ -11,3 +11,4 @@ import CEProofs.C03
 #print axioms CE.Disc.surrogates
 #print axioms CE.Disc.permute_perm
 #print axioms CE.Disc.shuffleTest_spec
+#print axioms CE.Disc.decideTestG_codeShape
